@@ -439,6 +439,140 @@ theorem shorten_started (r0 : Rep) (X : List (List Nat)) (p : List (List Nat)) (
     rw [hg, hrem (by simp)]
     rfl
 
+/-! ### the two path operations of `append_parts` as values -/
+
+/-- the path after `get_path_rem_last` / `get_shorten_path` -/
+def opList (o : PathOp) (isFile : Bool) (p : List (List Nat)) : List (List Nat) :=
+  match o with
+  | .remLast => p.dropLast
+  | .shorten => shortenList isFile p
+
+theorem getPathRemLast_mk (r0 : Rep) (X : List (List Nat)) (p : List (List Nat)) (hX : X.length = 8)
+    (hn : r0.segCount = p.length) (hp : NoSlash p) (hne : p ≠ []) :
+    (mkRep r0 (X ++ [ptext p])).getPathRemLast =
+      some (X.flatten.length + (ptext p.dropLast).length, p.length - 1) := by
+  have hsc : (mkRep r0 (X ++ [ptext p])).segCount = p.length := hn
+  unfold Rep.getPathRemLast
+  rw [hsc, if_pos (List.length_pos_iff.mpr hne)]
+  simp only [slice_path_mk r0 X _ hX]
+  have hdec : p = p.dropLast ++ [p.getLast hne] := (List.dropLast_concat_getLast hne).symm
+  have hk := lastSlash p.dropLast (p.getLast hne) (hp _ (List.getLast_mem hne))
+  rw [← hdec] at hk
+  rw [hk]
+  simp [PATH, pe7_path r0 X _ hX]
+
+theorem getPathRemLast_nil (r0 : Rep) (A : List (List Nat)) (hn : r0.segCount = 0) :
+    (mkRep r0 A).getPathRemLast = none := by
+  have hsc : (mkRep r0 A).segCount = 0 := hn
+  unfold Rep.getPathRemLast
+  rw [hsc]; simp
+
+/-- the value of the path operation: `none` (nothing to remove: the path stays) or the new end of
+    the path and the new segment count -/
+theorem pathOp_mk (o : PathOp) (r0 : Rep) (X : List (List Nat)) (p : List (List Nat)) (isFile : Bool)
+    (hX : X.length = 8) (ho : r0.opaquePath = false) (hn : r0.segCount = p.length)
+    (hf : r0.isFileScheme = isFile) (hp : NoSlash p) :
+    ((mkRep r0 (X ++ [ptext p])).pathOp o = none ∧ opList o isFile p = p) ∨
+    ((mkRep r0 (X ++ [ptext p])).pathOp o =
+      some (X.flatten.length + (ptext (opList o isFile p)).length, (opList o isFile p).length)) := by
+  have hsc : (mkRep r0 (X ++ [ptext p])).segCount = p.length := hn
+  have hfs : (mkRep r0 (X ++ [ptext p])).isFileScheme = isFile := hf
+  cases o with
+  | remLast =>
+    unfold Rep.pathOp opList
+    cases p with
+    | nil => left; exact ⟨getPathRemLast_nil _ _ hn, rfl⟩
+    | cons a t =>
+      right
+      rw [getPathRemLast_mk r0 X _ hX hn hp (by simp)]
+      simp
+  | shorten =>
+    unfold Rep.pathOp opList
+    match p, hn, hp, hsc, hfs with
+    | [], hn, hp, hsc, hfs =>
+      left
+      refine ⟨?_, rfl⟩
+      unfold Rep.getShortenPath
+      rw [hsc]; simp
+    | [seg], hn, hp, hsc, hfs =>
+      have hseg : ∀ c ∈ seg, c ≠ 0x2F := hp seg (by simp)
+      have hpt : ptext [seg] = 0x2F :: seg := by simp [ptext]
+      have hfirst := getPathFirstString_single r0 X seg hX ho hseg
+      rw [← hpt] at hfirst
+      have hg : (mkRep r0 (X ++ [ptext [seg]])).getShortenPath =
+          if (isFile && segDrive seg) = true then none
+          else (mkRep r0 (X ++ [ptext [seg]])).getPathRemLast := by
+        unfold Rep.getShortenPath
+        dsimp only
+        rw [hsc, hfs, hfirst, driveTest seg]
+        simp
+      rw [hg, shortenList_single]
+      by_cases hd : (isFile && segDrive seg) = true
+      · left; rw [if_pos hd, if_pos hd]; exact ⟨rfl, rfl⟩
+      · right
+        rw [if_neg hd, if_neg hd, getPathRemLast_mk r0 X _ hX hn hp (by simp)]
+        simp [ptext]
+    | s1 :: s2 :: rest, hn, hp, hsc, hfs =>
+      right
+      have hg : (mkRep r0 (X ++ [ptext (s1 :: s2 :: rest)])).getShortenPath =
+          (mkRep r0 (X ++ [ptext (s1 :: s2 :: rest)])).getPathRemLast := by
+        unfold Rep.getShortenPath
+        dsimp only
+        rw [hsc]
+        simp
+      rw [hg, getPathRemLast_mk r0 X _ hX hn hp (by simp)]
+      simp [shortenList]
+
+theorem opList_prefix (o : PathOp) (isFile : Bool) (p : List (List Nat)) :
+    ∃ q, p = opList o isFile p ++ q := by
+  cases o with
+  | remLast =>
+    cases hp : p with
+    | nil => exact ⟨[], rfl⟩
+    | cons a t =>
+      refine ⟨[(a :: t).getLast (by simp)], ?_⟩
+      exact (List.dropLast_concat_getLast (by simp)).symm
+  | shorten =>
+    match p with
+    | [] => exact ⟨[], rfl⟩
+    | [seg] =>
+      show ∃ q, [seg] = shortenList isFile [seg] ++ q
+      rw [shortenList_single]
+      split
+      · exact ⟨[], by simp⟩
+      · exact ⟨[seg], by simp⟩
+    | s1 :: s2 :: rest =>
+      refine ⟨[(s1 :: s2 :: rest).getLast (by simp)], ?_⟩
+      show s1 :: s2 :: rest = (s1 :: s2 :: rest).dropLast ++ _
+      exact (List.dropLast_concat_getLast (by simp)).symm
+
+theorem ptext_take_prefix (o : PathOp) (isFile : Bool) (p : List (List Nat)) :
+    (ptext p).take (ptext (opList o isFile p)).length = ptext (opList o isFile p) ∧
+      (ptext (opList o isFile p)).length ≤ (ptext p).length := by
+  obtain ⟨q, hq⟩ := opList_prefix o isFile p
+  have : ptext p = ptext (opList o isFile p) ++ ptext q := by
+    conv => lhs; rw [hq]
+    simp [ptext]
+  rw [this]
+  exact ⟨List.take_left' rfl, by simp⟩
+
+theorem shortenList_subset' (isFile : Bool) (p : List (List Nat)) : ∀ x ∈ shortenList isFile p, x ∈ p := by
+  intro x hx
+  match p, hx with
+  | [], hx => exact hx
+  | [seg], hx =>
+    rw [shortenList_single] at hx
+    split at hx
+    · exact hx
+    · simp at hx
+  | a :: b :: r, hx => exact List.dropLast_subset _ hx
+
+theorem opList_subset (o : PathOp) (isFile : Bool) (p : List (List Nat)) :
+    ∀ x ∈ opList o isFile p, x ∈ p := by
+  cases o with
+  | remLast => exact fun x hx => List.dropLast_subset _ hx
+  | shorten => exact shortenList_subset' isFile p
+
 /-! ### commit_path = adjust_path_prefix -/
 
 section
